@@ -1,19 +1,19 @@
 // Kani harnesses for crates/erbium-core/src/dns/router.rs (C15: longest suffix wins, order independent).
 // The selection loop lives inline in an async fn; its body is lifted verbatim into a synchronous fn by
 // /verif/lib/lift.py on every run (see that file for the purely syntactic rewrite).
-#[cfg(kani)]
-mod k {
+// shims + lifted body: compiled for Kani and for the MIR dump used by the mirsym engine
+#[cfg(any(kani, isomer_erbium_mir, test))]
+pub mod lifted {
+    #![allow(dead_code, static_mut_refs)]
     use super::super::*;
     use crate::dns::config::{Handler, Route};
     use crate::dns::dnspkt::*;
-    include!(concat!(env!("ISOMER_ERBIUM_VERIF_DIR"), "/_common.rs"));
-
     // ---- shims for the environment of the lifted body -------------------------------------------------
     // view of the configuration: the lifted body only reads `dns_routes`
     pub struct ConfView {
-        dns_routes: Vec<Route>,
+        pub dns_routes: Vec<Route>,
     }
-    pub struct ConfShim<'a>(&'a ConfView);
+    pub struct ConfShim<'a>(pub &'a ConfView);
     impl<'a> ConfShim<'a> {
         fn clone(&self) -> ConfShim<'a> {
             ConfShim(self.0)
@@ -24,14 +24,14 @@ mod k {
     }
     // view of the incoming message: the lifted body only reads the question name, RD and (for logging) the id
     pub struct QueryView {
-        qid: u16,
-        rd: bool,
-        question: Question,
+        pub qid: u16,
+        pub rd: bool,
+        pub question: Question,
     }
     pub struct MsgShim {
-        in_query: QueryView,
+        pub in_query: QueryView,
     }
-    static mut FORWARDED_TO: Option<std::net::SocketAddr> = None;
+    pub static mut FORWARDED_TO: Option<std::net::SocketAddr> = None;
     pub struct NextShim;
     impl NextShim {
         // the next handler in the chain (cache -> upstream): records where the query would be sent
@@ -41,11 +41,21 @@ mod k {
         }
     }
     pub struct RouterShim<'a> {
-        conf: ConfShim<'a>,
-        next: NextShim,
+        pub conf: ConfShim<'a>,
+        pub next: NextShim,
     }
     include!(concat!(env!("VERIF_GEN_DIR"), "/router_handle_query.rs"));
 
+}
+
+#[cfg(kani)]
+mod k {
+    use super::super::*;
+    use crate::dns::config::{Handler, Route};
+    use crate::dns::dnspkt::*;
+    include!(concat!(env!("ISOMER_ERBIUM_VERIF_DIR"), "/_common.rs"));
+
+    use super::lifted::*;
     // ---- builders -------------------------------------------------------------------------------------
     // suffix of n labels (1 octet each), octets taken from `b`
     fn dom_n(n: u8, b: [u8; 3]) -> Domain {
@@ -213,5 +223,68 @@ mod k {
         std::mem::forget(got);
         std::mem::forget(msg);
         std::mem::forget(conf);
+    }
+}
+
+// Native replay of mirsym counterexamples through the lifted body (driven by /verif/lib/mir_replay.py).
+// Script: "route nx|fwd <server-id> <labels of suffix 1 as comma separated octets, labels separated by '.'> [more suffixes]",
+//         "query <labels> <rd 0|1>".   An empty suffix is written "-".
+#[cfg(test)]
+mod replay {
+    use super::lifted::*;
+    use super::super::*;
+    use crate::dns::config::{Handler, Route};
+    use crate::dns::dnspkt::*;
+
+    fn dom(s: &str) -> Domain {
+        if s == "-" {
+            return Domain::from(Vec::new());
+        }
+        Domain::from(s.split('.').map(|l| Label::from(l.split(',').map(|b| b.parse::<u8>().unwrap()).collect::<Vec<u8>>())).collect::<Vec<_>>())
+    }
+
+    #[test]
+    fn isomer_erbium_replay_router() {
+        let path = match std::env::var("VERIF_REPLAY_FILE") {
+            Ok(p) => p,
+            Err(_) => return,
+        };
+        let script = std::fs::read_to_string(path).expect("replay script");
+        let mut routes = vec![];
+        let mut q = None;
+        for line in script.lines() {
+            let w: Vec<&str> = line.split_whitespace().collect();
+            if w.is_empty() {
+                continue;
+            }
+            match w[0] {
+                "route" => {
+                    let id: u8 = w[2].parse().unwrap();
+                    let dest = if w[1] == "nx" {
+                        Handler::ForgeNxDomain
+                    } else {
+                        Handler::Forward(vec![std::net::SocketAddr::new(std::net::IpAddr::V4(std::net::Ipv4Addr::new(192, 0, 2, id)), 53)])
+                    };
+                    routes.push(Route { suffixes: w[3..].iter().map(|s| dom(s)).collect(), dest });
+                }
+                "query" => q = Some((dom(w[1]), w[2] == "1")),
+                _ => {}
+            }
+        }
+        let (qd, rd) = q.unwrap();
+        let conf = ConfView { dns_routes: routes };
+        let h = RouterShim { conf: ConfShim(&conf), next: NextShim };
+        let msg = MsgShim { in_query: QueryView { qid: 1, rd, question: Question { qdomain: qd, qclass: CLASS_IN, qtype: RR_A } } };
+        unsafe { FORWARDED_TO = None };
+        let r = std::panic::catch_unwind(std::panic::AssertUnwindSafe(|| lifted_router_handle_query(&h, &msg)));
+        let fwd = unsafe { FORWARDED_TO };
+        match (r, fwd) {
+            (Err(_), _) => println!("REPLAY result panic"),
+            (_, Some(a)) => println!("REPLAY result forwarded {}", match a.ip() { std::net::IpAddr::V4(v) => v.octets()[3], _ => 0 }),
+            (Ok(Err(Error::Blocked)), _) => println!("REPLAY result Blocked"),
+            (Ok(Err(Error::NotAuthoritative)), _) => println!("REPLAY result NotAuthoritative"),
+            (Ok(Err(Error::NoRouteConfigured)), _) => println!("REPLAY result NoRouteConfigured"),
+            (Ok(_), _) => println!("REPLAY result other"),
+        }
     }
 }
